@@ -47,6 +47,33 @@ def explore(scenarios, seed=0, workers=8):
     return traces, meta
 
 
+def _l2_one(args):
+    cfg, seeds, pswitch = args
+    sys.path.insert(0, VERIF)
+    from harness import pl2
+    out = []
+    for seed in seeds:
+        r = pl2.random_run(cfg, seed, pswitch)
+        out.append((r["events"], r["choices"], r["notes"], r["status"], seed))
+    return cfg, out
+
+
+def explore_l2(scenarios, seed=0, workers=12):
+    """scenarios: list of (cfg, runs).  Random deterministic schedules (seeded), real threads."""
+    jobs = []
+    for k, (cfg, runs) in enumerate(scenarios):
+        per = max(1, runs // 4)
+        for j, ps in enumerate((0.2, 0.5, 0.8, 0.5)):
+            base = seed * 100003 + k * 1009 + j * 100000
+            jobs.append((cfg, list(range(base, base + per)), ps))
+    traces = []; meta = []
+    with ProcessPoolExecutor(max_workers=workers) as ex:
+        for cfg, out in ex.map(_l2_one, jobs, chunksize=1):
+            for events, choices, notes, status, sd in out:
+                traces.append(events); meta.append({"cfg": cfg, "sched": choices, "notes": notes, "driver": "L2", "seed": sd, "status": status})
+    return traces, meta
+
+
 def validate(c, traces, meta, own, chunk=6000, label="L1"):
     """TLC-validate traces against ParallelAbs; record violations of property `own` (prefix of the clause)."""
     other = collections.Counter()
